@@ -23,6 +23,7 @@ fn do_case(case: Vec<i128>) {
                 8 => forms::run::<forms::P3, forms::P3, forms::P3, N>(&case),
                 9 => forms::run::<forms::H2, u32, u32, N>(&case),
                 10 => forms::run::<u32, forms::H2, forms::P3, N>(&case),
+                11 => forms::run::<forms::Sd, forms::Sd, forms::Sd, N>(&case),
                 _ => forms::run::<forms::Zs, forms::Zs, forms::Zs, N>(&case),
             },
             panic!("length {} not monomorphised", n)
@@ -51,13 +52,14 @@ fn main() {
     }
     let ns: Vec<usize> = vec![0, 1, 2, 3, 4, 5, 6, 16, 33, 97];
     for &n in &ns {
-        for elem in [0i128, 1, 2, 3, 4, 5, 8, 9, 10] {
-            for (op, nforms) in [(0i128, 4i128), (1, 10), (2, 4), (3, 4), (4, 1), (5, 1)] {
+        for elem in [0i128, 1, 2, 3, 4, 5, 8, 9, 10, 11] {
+            for (op, nforms) in [(0i128, 4i128), (1, 10), (2, 4), (3, 4), (4, 1), (5, 2)] {
                 if (elem == 1 && op >= 4) || ((elem == 2 || elem == 3) && op != 1) || (elem == 4 && op != 4) || (elem == 5 && op >= 4) {
                     continue;
                 }
                 // 8: plain 12-byte elements (size != alignment); 9, 10: zips of plain arrays with different element sizes
-                if (elem == 8 && op >= 4) || ((elem == 9 || elem == 10) && op != 1) {
+                // 11: plain elements with a stateful Default whose first value is all-zero bits: Default / default_boxed only
+                if (elem == 8 && op >= 4) || ((elem == 9 || elem == 10) && op != 1) || (elem == 11 && op != 5) {
                     continue;
                 }
                 for form in 0..nforms {
